@@ -3,7 +3,7 @@ CONSTANTS
   Members = {1, 2, 3}
   Plain = {"a", ""}
   Prefixes = {"g"}
-  MaxNum = 6
+  MaxNum = 5
   GenAsPinned = FALSE
 INVARIANTS Injective FreshGensym
 CONSTRAINT Constraint
